@@ -397,6 +397,12 @@ func C01(ctx *core.Ctx) {
 
 	ctx.Rule("C01.R10", "bytes handed to the peer belong to the call: no Bytes() of a buffer kept in a field of a transport or client", 4)
 	sharedBufferBytes(ctx, r, "C01.R10")
+	ctx.Rule("C01.R11", "op ids identify one context: every FContext that is constructed (NewFContext, Clone, the context of a received request) draws its own op id from the atomic counter — two in-flight requests never share the key responses are routed by", 4)
+	if gen, _ := opIDGenerator(r); gen != nil {
+		freshOpIDs(ctx, r, gen, constString(r, "opIDHeader"), "C01.R11")
+	} else {
+		ctx.Unresolved("C01.R11", "op-id generator", "no single function drawing from atomic.AddUint64")
+	}
 	// ---- R4/R5 Request implementations --------------------------------------
 	for _, req := range r.Impl("FTransport", "Request") {
 		c01Request(ctx, r, req, "C01.R4", "C01.R5")
